@@ -7,6 +7,11 @@ import PV.C09.Types
   The LALRPOP parser and the lexer are PARAMETERS of the model (`Env.parseTop`, `Env.lexTop`):
   everything here is a function over an arbitrary `parseTop : Mode → tokens → Res Mod`, exactly as
   every Rust entry point is a function over `python::TopParser` and `lexer::lex_starts_at`.
+
+  The model follows the code AFTER the repairs 9f7255d (`not_before` in both `parse_starts_at`),
+  e8203b1 (start marker = empty range at the start of the first token) and 582d03b (the cfg(full-lexer)
+  Comment/NonLogicalNewline filter sits inside `parse_filtered_tokens`, before the peek; neither
+  `pub fn parse_tokens` nor the trait's `parse_starts_at` filters).
   Core Lean only.
 -/
 namespace PV.C09
